@@ -136,6 +136,32 @@ def theorems_of(prop):
     return names, assumptions, problems
 
 
+def coqchk_of(prop):
+    """thorough tier: re-check this property's compiled theorem files, and every library they load, with Coq's
+    independent checker; -o lists the axioms of everything loaded.  Returns a list of problems."""
+    files = sorted(glob.glob(os.path.join(COQ, "Props", prop + "*.v")))
+    mods = ["OAS." + os.path.basename(f)[:-2] for f in files]
+    cmd = ["coqchk", "-silent", "-o"]
+    for d in ("Model", "Float", "Real", "Spec", "Generated", "Props"):
+        cmd += ["-Q", d, "OAS"]
+    rc, out = sh(cmd + mods, 7200, cwd=COQ)
+    open(os.path.join(WORK, "coqchk_%s.log" % prop), "w").write(out)
+    if rc != 0:
+        return ["coqchk failed on %s: %s" % (" ".join(mods), out[-1200:])]
+    problems = []
+    m = re.search(r"\* Axioms:(.*?)\n\s*\n", out, re.S)
+    axioms = re.findall(r"^\s+([A-Za-z_][A-Za-z0-9_.']*)\s*$", m.group(1), re.M) if m else []
+    for a in axioms:
+        short = a[4:] if a.startswith("Coq.") else a
+        if not any(short.endswith(al) or al.endswith(short) for al in ALLOWED_AXIOMS):
+            problems.append("coqchk -o: library axiom outside the stated trusted base: %s" % a)
+    for label in ("type-in-type", "unsafe (co)fixpoints", "positivity is assumed"):
+        mm = re.search(re.escape(label) + r":\s*(.*)", out)
+        if mm and "<none>" not in mm.group(1):
+            problems.append("coqchk -o: %s: %s" % (label, mm.group(1)[:200]))
+    return problems
+
+
 def load_known():
     p = os.path.join(ROOT, "KNOWN_FINDINGS.json")
     if not os.path.exists(p):
@@ -174,6 +200,9 @@ def main():
         broken.append(("proof-build", failing, log))
     else:
         th_names, assumptions, th_problems = theorems_of(prop)
+        if tier == "thorough" and not th_problems:
+            th_problems = coqchk_of(prop)
+            R.notes.append("coqchk -o over Props/%s*.vo and everything they load: %s" % (prop, "no problem" if not th_problems else th_problems))
         for p in th_problems:
             broken.append(("proof-audit", prop, p))
     for b in audit_sources():
